@@ -169,7 +169,15 @@ def gen_context_cfg(rng):
         if rng.random() < 0.3:
             rules.append((a, (b, rng.choice(ts))))
     leaf = chain[-1]
-    rules.append((leaf, (rng.choice(ts),)))
+    # a second non-terminal with the same body as the chain's leaf, used in other contexts: its reductions compete with
+    # the chain's on merged look-aheads (errors are then noticed only after a reduction)
+    x = rng.choice(ts)
+    if rng.random() < 0.6:
+        for (l, r) in list(used)[:2]:
+            r2 = rng.choice([t for t in ts if t != r] or ts)
+            rules.append(('start', (l, 'w', r2)))
+        rules.append(('w', (x,)))
+    rules.append((leaf, (x,)))
     if rng.random() < 0.5:
         rules.append((leaf, (rng.choice(ts), leaf)))
     rules = sorted(set(rules), key=lambda r: (r[0] != 'start', r))
